@@ -1777,6 +1777,7 @@ func (n *node) unregisterProcess(p *process, reason error) {
 	lib.VerifPoint("unreg.delete", p)
 	n.processes.Delete(p.pid)
 
+	lib.VerifPoint("unreg.release", p)
 	// release the name, the aliases and the events of this process before anybody is
 	// notified about its termination: whoever reacts to the notification (e.g. a supervisor
 	// restarting this child) must be able to claim them again
